@@ -173,7 +173,7 @@ CHECKS = {
         "level": "exploration",
         "vsim_id": "C20",
         "design_ref": "DESIGN.md section 5/C20",
-        "engine": "sequential driver + E1 clock",
+        "engine": "sequential driver + E1 clock; E2 simsched for the concurrent-insert rows",
         "technique": "deterministic simulation: the C04 histories with size invariants evaluated after every operation (document cache, query-result cache, recent-write tier at insert return)",
         "rule": "the C04 histories (same generator and configuration swarm incl. capacities {1,2,5,50}, query-cache capacities {1,2,5,50}, hard limits {1,2,5,200}, all strategies, pokes in odd runs); after EVERY step: cache_size() <= capacity "
                 "(A/B splitter: each arm <= capacity and the sum <= 2 x capacity), QueryHashCache::len() <= capacity, hot_tier().len() <= hard limit whenever an insert has returned; content of what was evicted/drained is covered by "
